@@ -107,6 +107,17 @@ pub fn meta_alphabet() -> Vec<(&'static str, Map<String, Value>)> {
     let mut m = Map::new();
     m.insert("big".into(), Value::String("0123456789abcdef".repeat(320)));
     out.push(("5KiB-string", m));
+    // sizes around the buffer sizes met on the read path (2048 pre-allocation, 4096 codec buffers, 8192 BufReader, 65536)
+    for (name, n) in [("2047B-string", 2047 - 8), ("4097B-string", 4097 - 8), ("9KiB-string", 9 * 1024), ("70KiB-string", 70 * 1024)] {
+        let mut m = Map::new();
+        m.insert("s".into(), Value::String("x".repeat(n)));
+        out.push((name, m));
+    }
+    let mut m = Map::new();
+    for i in 0..700 {
+        m.insert(format!("key-{i:04}"), json!({"i": i, "v": [i, i + 1], "s": format!("value {i}")}));
+    }
+    out.push(("700-keys", m));
     let mut m = Map::new();
     m.insert("umax".into(), json!(u64::MAX));
     m.insert("imin".into(), json!(i64::MIN));
